@@ -101,7 +101,7 @@ func c15MainIn(cwd string, args []string, stdin string) (int, string, string) {
 func TestVerifC15(t *testing.T) {
 	r := vNewReport("C15")
 	defer r.Write(t)
-	r.Extra["rule"] = "3 workflows x 12 -ignore sets x 4 paths globs x 4 config ignore sets x {no further entry, a further matching entry, a further non-matching entry} x 4 working directories x 5 path spellings (relative, ./relative, absolute; piped through stdin with a relative / absolute -stdin-filename) through Command.Main (-oneline -no-color), complete product; oracle: unfiltered list minus diagnostics matched by a CLI pattern or by a config pattern whose glob matches the root-relative path, order preserved, exit 1 iff non-empty; plus every ordered pair / triple of files of 4 different locations (repository, sibling repository, nested repository, no repository) x 3 working directories x relative / absolute spelling in one invocation; plus exit-status rows (invalid flag 2; unreadable file, bad config, bad -ignore regexp, bad config regexp 3). class = (remaining diagnostics, exit status); non-trivial = something is filtered"
+	r.Extra["rule"] = "3 workflows x 12 -ignore sets x 4 paths globs x 4 config ignore sets given by the repository's actionlint.yaml or by -config-file (repository without its own) x {no further entry, a further matching entry, a further non-matching entry} x 4 working directories x 5 path spellings (relative, ./relative, absolute; piped through stdin with a relative / absolute -stdin-filename) through Command.Main (-oneline -no-color), complete product; oracle: unfiltered list minus diagnostics matched by a CLI pattern or by a config pattern whose glob matches the root-relative path, order preserved, exit 1 iff non-empty; plus every ordered pair / triple of files of 4 different locations (repository, sibling repository, nested repository, no repository) x 3 working directories x relative / absolute spelling in one invocation; plus exit-status rows (invalid flag 2; unreadable file, bad config, bad -ignore regexp, bad config regexp 3). class = (remaining diagnostics, exit status); non-trivial = something is filtered"
 	r.Extra["assumptions"] = []string{"glob match bits are part of the scenario table (written by hand for 4 globs x 3 files)", "working directory is process-global: cases run sequentially inside each worker process"}
 	orig, _ := os.Getwd()
 	defer os.Chdir(orig)
@@ -129,9 +129,12 @@ func TestVerifC15(t *testing.T) {
 
 	// second: 0 = no further entry; 1 = a further entry whose glob matches every workflow and ignores
 	// the runner-label message; 2 = a further entry whose glob matches nothing and ignores everything
+	customCfg := filepath.Join(base, "custom-config.yaml")
+	cfgTarget := cfgPath // where writeCfg puts the configuration: the repository's own file or a file given with -config-file
 	writeCfg := func(g *c15Glob, pats []string, second int) {
+		os.Remove(cfgPath)
+		os.Remove(customCfg)
 		if (g == nil || len(pats) == 0) && second == 0 {
-			os.Remove(cfgPath)
 			return
 		}
 		var b strings.Builder
@@ -148,7 +151,7 @@ func TestVerifC15(t *testing.T) {
 		if second == 1 {
 			b.WriteString("  '**/*.yml':\n    ignore:\n      - 'label \"nosuchlabel\"'\n")
 		}
-		if err := os.WriteFile(cfgPath, []byte(b.String()), 0o644); err != nil {
+		if err := os.WriteFile(cfgTarget, []byte(b.String()), 0o644); err != nil {
 			t.Fatal(err)
 		}
 	}
@@ -156,6 +159,7 @@ func TestVerifC15(t *testing.T) {
 	if raw := vReplayInput(); raw != nil {
 		var rp struct {
 			Cwd, Config string
+			Via         string
 			Stdin       string
 			Args        []string
 			Want        []string
@@ -164,10 +168,14 @@ func TestVerifC15(t *testing.T) {
 		}
 		jsonUnmarshal(raw, &rp)
 		for k := 0; k < 2; k++ {
-			if rp.Config == "" {
-				os.Remove(cfgPath)
-			} else {
-				os.WriteFile(cfgPath, []byte(rp.Config), 0o644)
+			os.Remove(cfgPath)
+			os.Remove(customCfg)
+			if rp.Config != "" {
+				target := cfgPath
+				if rp.Via == "flag" {
+					target = customCfg
+				}
+				os.WriteFile(target, []byte(rp.Config), 0o644)
 			}
 			code, out, errOut := c15MainIn(cwds[rp.Cwd], rp.Args, rp.Stdin)
 			fmt.Printf("replay %d: cwd=%s args=%v exit=%d (want %d)\nstdout:\n%s\nstderr:\n%s\nwant: %v\n", k, rp.Cwd, rp.Args, code, rp.WantExit, out, errOut, rp.Want)
@@ -229,101 +237,112 @@ func TestVerifC15(t *testing.T) {
 					for _, cwdName := range []string{"root", "parent", "nested", "unrelated"} {
 						for _, spelling := range []string{"relative", "dot-relative", "absolute", "stdin-relative", "stdin-absolute"} {
 							for second := 0; second < 3; second++ {
-								idx++
-								if !r.Mine(idx) {
-									continue
-								}
-								if idx%256 == 0 && r.Expired() {
-									return
-								}
-								abs := filepath.Join(root, ".github/workflows", wf)
-								arg := abs
-								// stdin-*: the workflow is piped in and the path is given with -stdin-filename
-								viaStdin := strings.HasPrefix(spelling, "stdin-")
-								if spelling != "absolute" && spelling != "stdin-absolute" {
-									rel, err := filepath.Rel(cwds[cwdName], abs)
-									if err != nil {
+								for _, via := range []string{"repo", "flag"} {
+									cfgTarget = cfgPath
+									if via == "flag" {
+										cfgTarget = customCfg
+									}
+									idx++
+									if !r.Mine(idx) {
 										continue
 									}
-									arg = rel
-									if spelling == "dot-relative" {
-										arg = "./" + rel
+									if idx%256 == 0 && r.Expired() {
+										return
 									}
-								}
-								writeCfg(g, cfgPats, second)
-								args := append([]string{}, common...)
-								for _, p := range cli {
-									args = append(args, "-ignore", p)
-								}
-								stdin := ""
-								if viaStdin {
-									args = append(args, "-stdin-filename", arg, "-")
-									stdin = c15Workflows[wf]
-								} else {
-									args = append(args, arg)
-								}
-								r.Begin(func() string { return fmt.Sprintf("cwd=%s args=%v glob=%s cfg=%v", cwdName, args, g.glob, cfgPats) })
-								code, out, errOut := c15MainIn(cwds[cwdName], args, stdin)
-								r.Evaluations++
-								r.Transitions++
-								r.Validated++
-								// reference filter
-								var want []string
-								for _, d := range unfiltered[wf] {
-									drop := false
-									for _, p := range cli {
-										if regexp.MustCompile(p).MatchString(d.msg) {
-											drop = true
+									abs := filepath.Join(root, ".github/workflows", wf)
+									arg := abs
+									// stdin-*: the workflow is piped in and the path is given with -stdin-filename
+									viaStdin := strings.HasPrefix(spelling, "stdin-")
+									if spelling != "absolute" && spelling != "stdin-absolute" {
+										rel, err := filepath.Rel(cwds[cwdName], abs)
+										if err != nil {
+											continue
+										}
+										arg = rel
+										if spelling == "dot-relative" {
+											arg = "./" + rel
 										}
 									}
-									if g.matches[wf] {
-										for _, p := range cfgPats {
+									writeCfg(g, cfgPats, second)
+									args := append([]string{}, common...)
+									if via == "flag" {
+										if _, err := os.Stat(customCfg); err == nil {
+											args = append(args, "-config-file", customCfg)
+										}
+									}
+									for _, p := range cli {
+										args = append(args, "-ignore", p)
+									}
+									stdin := ""
+									if viaStdin {
+										args = append(args, "-stdin-filename", arg, "-")
+										stdin = c15Workflows[wf]
+									} else {
+										args = append(args, arg)
+									}
+									r.Begin(func() string { return fmt.Sprintf("cwd=%s args=%v glob=%s cfg=%v", cwdName, args, g.glob, cfgPats) })
+									code, out, errOut := c15MainIn(cwds[cwdName], args, stdin)
+									r.Evaluations++
+									r.Transitions++
+									r.Validated++
+									// reference filter
+									var want []string
+									for _, d := range unfiltered[wf] {
+										drop := false
+										for _, p := range cli {
 											if regexp.MustCompile(p).MatchString(d.msg) {
 												drop = true
 											}
 										}
+										if g.matches[wf] {
+											for _, p := range cfgPats {
+												if regexp.MustCompile(p).MatchString(d.msg) {
+													drop = true
+												}
+											}
+										}
+										if second == 1 && strings.Contains(d.msg, `label "nosuchlabel"`) {
+											drop = true
+										}
+										if !drop {
+											want = append(want, fmt.Sprintf("%d:%d:%s", d.line, d.col, d.msg))
+										}
 									}
-									if second == 1 && strings.Contains(d.msg, `label "nosuchlabel"`) {
-										drop = true
+									wantExit := 0
+									if len(want) > 0 {
+										wantExit = 1
 									}
-									if !drop {
-										want = append(want, fmt.Sprintf("%d:%d:%s", d.line, d.col, d.msg))
+									ds, _ := c15Parse(out)
+									var got []string
+									for _, d := range ds {
+										got = append(got, fmt.Sprintf("%d:%d:%s", d.line, d.col, d.msg))
 									}
-								}
-								wantExit := 0
-								if len(want) > 0 {
-									wantExit = 1
-								}
-								ds, _ := c15Parse(out)
-								var got []string
-								for _, d := range ds {
-									got = append(got, fmt.Sprintf("%d:%d:%s", d.line, d.col, d.msg))
-								}
-								cfgText := ""
-								if b, err := os.ReadFile(cfgPath); err == nil {
-									cfgText = string(b)
-								}
-								replay := map[string]any{"cwd": cwdName, "args": args, "config": cfgText, "want": want, "want_exit": wantExit, "stdin": stdin}
-								desc := fmt.Sprintf("%s cwd=%s spelling=%s -ignore=%v paths[%s].ignore=%v second-entry=%d", wf, cwdName, spelling, cli, g.glob, cfgPats, second)
-								if strings.Join(got, "\n") != strings.Join(want, "\n") {
-									kind := "filter-mismatch"
-									if len(got) > len(want) {
-										kind = "not-filtered"
-									} else if len(got) < len(want) {
-										kind = "over-filtered"
+									cfgText := ""
+									if b, err := os.ReadFile(cfgTarget); err == nil {
+										cfgText = string(b)
 									}
-									feature := "cli"
-									if len(cfgPats) > 0 {
-										feature = fmt.Sprintf("config:cwd=%s:glob-matches=%v", cwdName, g.matches[wf])
+									replay := map[string]any{"cwd": cwdName, "args": args, "config": cfgText, "want": want, "want_exit": wantExit, "stdin": stdin, "via": via}
+									desc := fmt.Sprintf("%s cwd=%s spelling=%s -ignore=%v paths[%s].ignore=%v second-entry=%d config-via=%s", wf, cwdName, spelling, cli, g.glob, cfgPats, second, via)
+									if strings.Join(got, "\n") != strings.Join(want, "\n") {
+										kind := "filter-mismatch"
+										if len(got) > len(want) {
+											kind = "not-filtered"
+										} else if len(got) < len(want) {
+											kind = "over-filtered"
+										}
+										feature := "cli"
+										if len(cfgPats) > 0 {
+											feature = fmt.Sprintf("config:cwd=%s:glob-matches=%v", cwdName, g.matches[wf])
+										}
+										r.Violation(kind+":"+feature, fmt.Sprintf("%s: output has %d diagnostics, the reference filter leaves %d\n got: %v\nwant: %v\nstderr: %s", desc, len(got), len(want), got, want, vTrunc(errOut, 200)), replay)
+									} else if code != wantExit {
+										r.Violation("exit-status", fmt.Sprintf("%s: exit status %d, expected %d (%d diagnostics remain); stderr %s", desc, code, wantExit, len(want), vTrunc(errOut, 200)), replay)
 									}
-									r.Violation(kind+":"+feature, fmt.Sprintf("%s: output has %d diagnostics, the reference filter leaves %d\n got: %v\nwant: %v\nstderr: %s", desc, len(got), len(want), got, want, vTrunc(errOut, 200)), replay)
-								} else if code != wantExit {
-									r.Violation("exit-status", fmt.Sprintf("%s: exit status %d, expected %d (%d diagnostics remain); stderr %s", desc, code, wantExit, len(want), vTrunc(errOut, 200)), replay)
-								}
-								r.Class(fmt.Sprintf("remaining=%d/%d exit=%d", len(want), len(unfiltered[wf]), wantExit), len(want) < len(unfiltered[wf]))
-								_, _ = ci, pi
-								if idx%577 == 0 {
-									r.Sample(map[string]any{"case": desc, "remaining": len(want), "exit": wantExit})
+									r.Class(fmt.Sprintf("remaining=%d/%d exit=%d", len(want), len(unfiltered[wf]), wantExit), len(want) < len(unfiltered[wf]))
+									_, _ = ci, pi
+									if idx%577 == 0 {
+										r.Sample(map[string]any{"case": desc, "remaining": len(want), "exit": wantExit})
+									}
 								}
 							}
 						}
@@ -335,6 +354,7 @@ func TestVerifC15(t *testing.T) {
 
 	// invocations with several files of different repositories: each file is filtered by the
 	// configuration of the repository that contains it, whatever comes first
+	cfgTarget = cfgPath
 	if r.Shard == 0 {
 		writeCfg(&c15Globs[0], []string{"shell name"}, 0)
 		cfgText := ""
